@@ -408,7 +408,8 @@ def handleOp (e : Env) (fname : String) (n : Nat) (op : String) (d : Desc) (l : 
     let a ← el a
     if !c.isCyc a then some (unspecified "pre-false") else
     let m := if n == 12 then fmt (Flat.toFlat (fp12SqrCyc (fp2Ops e.base e.qnr) e.nor2 (Flat.ofFlat a))) else got
-    some { model := m, spec := [fmt (d.sqr a)], tags := ["sqr_cyc"] }
+    some { model := m, spec := [fmt (d.sqr a)],
+           tags := ["sqr_cyc"] ++ (if n == 12 then [if relCyc12 e a then "rel-ok" else "REL-MISMATCH"] else []) }
   | "sqr_pck", [a] | "sqr_pck_basic", [a] | "sqr_pck_lazyr", [a] =>
     -- the harness presets the destination with the operand: the coefficients the function does not write keep it
     let a ← el a
@@ -433,8 +434,11 @@ def handleOp (e : Env) (fname : String) (n : Nat) (op : String) (d : Desc) (l : 
     | none => some (unspecified "pre-false")
     | some cand =>
       if !c.isCyc cand then some (unspecified "pre-false") else
+      -- the repaired formula (theorem fp12_back_cyc_repaired) evaluated on the same operand: must give the specification's element
+      let fixed : List Nat := Flat.toFlat (fp12BackCycFixed (fp2Ops e.base e.qnr) e.nor2 (Flat.ofFlat a))
       some { model := fmt m, spec := [fmt cand],
-             tags := [if (fp2Units a).getD 3 [] == [0, 0] then "back_cyc-g2zero" else "back_cyc", if relCyc12 e cand then "rel-ok" else "REL-MISMATCH"] }
+             tags := [if (fp2Units a).getD 3 [] == [0, 0] then "back_cyc-g2zero" else "back_cyc", if relCyc12 e cand then "rel-ok" else "REL-MISMATCH",
+                      if d.eq fixed cand then "repair-ok" else "REPAIR-MISMATCH"] }
   | "back_cyc_sim", k :: rest =>
     let k ← k.toNat?
     let as ← parseEls c (rest.take k)
